@@ -240,6 +240,101 @@ fn poll_schedules(cfg: &Cfg, trees: &[Vec<(String, Node)>], init_base: usize, k:
     st
 }
 
+/// A directory vanishes while a walk is under way: every (tree, removed directory q, walker
+/// position i); the async stream must yield exactly what the sync iterator yields (paths and
+/// the positions of error items) - with no Pending and with one Pending at every await point.
+fn walks_with_vanishing_dirs(cfg: &Cfg, trees: &[Vec<(String, Node)>], init_base: usize, with_plans: bool, vio: &mut Vec<Violation>) -> u64 {
+    use futures::stream::StreamExt;
+    let res: Vec<(u64, Vec<Violation>)> = trees
+        .par_iter()
+        .map(|tree| {
+            let mut local = vec![];
+            let mut runs = 0u64;
+            let init: Init = vec![(init_base, tree.clone())];
+            let dirs: Vec<String> = tree.iter().filter(|(_, n)| *n == Node::Dir).map(|(p, _)| p.clone()).collect();
+            let total = tree.len();
+            for q in &dirs {
+                for i in 0..=total {
+                    // sync reference
+                    let sb = build(cfg, Order::Asc, &init);
+                    let sync_items: Result<Vec<Result<String, Kind>>, String> = guard(|| {
+                        let mut it = sb.root.walk_dir().unwrap();
+                        let mut items = vec![];
+                        for _ in 0..i {
+                            match it.next() {
+                                Some(x) => items.push(x.map(|p| p.as_str().to_string()).map_err(|e| einfo(&e).kind)),
+                                None => break,
+                            }
+                        }
+                        let _ = at(&sb.root, q).unwrap().remove_dir_all();
+                        for x in it.by_ref().take(1000) {
+                            items.push(x.map(|p| p.as_str().to_string()).map_err(|e| einfo(&e).kind));
+                        }
+                        items
+                    });
+                    let run_async = |plan: &[usize]| -> (Result<Vec<Result<String, Kind>>, String>, usize) {
+                        let ab = abuild(cfg, Order::Asc, &init);
+                        ab.ctl.arm(plan);
+                        let r = guard(|| {
+                            block_on(async {
+                                let mut it = ab.root.walk_dir().await.unwrap();
+                                let mut items = vec![];
+                                for _ in 0..i {
+                                    match it.next().await {
+                                        Some(x) => items.push(x.map(|p| p.as_str().to_string()).map_err(|e| einfo(&e).kind)),
+                                        None => break,
+                                    }
+                                }
+                                let _ = ab.root.join(&q[1..]).unwrap().remove_dir_all().await;
+                                let mut n = 0;
+                                while let Some(x) = it.next().await {
+                                    items.push(x.map(|p| p.as_str().to_string()).map_err(|e| einfo(&e).kind));
+                                    n += 1;
+                                    if n > 1000 {
+                                        break;
+                                    }
+                                }
+                                items
+                            })
+                        });
+                        let n = ab.ctl.disarm();
+                        (r, n)
+                    };
+                    let (a0, n) = run_async(&[]);
+                    runs += 2;
+                    let mk = |tail: &str, what: String, plan: &[usize]| Violation {
+                        property: "C15".into(),
+                        signature: format!("async {}|walk-with-vanishing-dir|{}", cfg.label(), tail),
+                        summary: format!("walk_dir on {} over tree {:?}, remove_dir_all({:?}) after {} items, Pending at {:?}: {}", cfg.label(), tree.iter().map(|(p, n)| format!("{}{}", p, if *n == Node::Dir { "/" } else { "" })).collect::<Vec<_>>(), q, i, plan, what),
+                        replay: json!({"engine": "walk-vanishing", "configuration": cfg.label(), "tree": tree.iter().map(|(p, n)| json!({"path": p, "dir": *n == Node::Dir})).collect::<Vec<_>>(), "removed": q, "after_items": i, "plan": plan}),
+                    };
+                    if a0 != sync_items {
+                        local.push(mk("differs-from-sync", format!("async yields {:?}, sync yields {:?}", a0, sync_items), &[]));
+                        continue;
+                    }
+                    if with_plans {
+                        for k in 0..n {
+                            let (a, _) = run_async(&[k]);
+                            runs += 1;
+                            if a != a0 {
+                                local.push(mk("depends-on-polling", format!("yields {:?}, without Pending {:?}", a, a0), &[k]));
+                                break;
+                            }
+                        }
+                    }
+                }
+            }
+            (runs, local)
+        })
+        .collect();
+    let mut runs = 0;
+    for (r, v) in res {
+        runs += r;
+        vio.extend(v);
+    }
+    runs
+}
+
 pub fn run_c15(ctx: &Ctx) -> i32 {
     let info = ctx.info("C15", "model_checking");
     let thorough = ctx.tier == Tier::Thorough;
@@ -291,6 +386,11 @@ pub fn run_c15(ctx: &Ctx) -> i32 {
     let small: Vec<Vec<(String, Node)>> = trees_over(&u3().paths, b"l");
     let ps2 = poll_schedules(&ov, &small, 1, if thorough { 2 } else { 1 }, &mut vio);
     quiet.say(&format!("  [poll plans, async Ov[Mem,Mem] with the tree in the lower layer, {} trees] runs={} await points={}", small.len(), ps2.runs, ps2.points));
+    // (d) directories vanishing mid-walk
+    let vr1 = walks_with_vanishing_dirs(&Cfg::Mem, &trees, 0, true, &mut vio);
+    let vr2 = walks_with_vanishing_dirs(&Cfg::alt(Cfg::Mem, "/Z"), &small, 0, false, &mut vio);
+    let vr3 = walks_with_vanishing_dirs(&ov, &small, 1, thorough, &mut vio);
+    quiet.say(&format!("  [walks with a directory vanishing at every walker position, sync vs async (+1 Pending at every await point)] runs={}", vr1 + vr2 + vr3));
     let mut ps3 = PlanStats { runs: 0, points: 0, classes: BTreeMap::new() };
     if thorough {
         let big: Vec<Vec<(String, Node)>> = trees_over(&u23().paths, b"x").into_iter().filter(|t| t.len() >= 9).take(40).collect();
@@ -298,7 +398,7 @@ pub fn run_c15(ctx: &Ctx) -> i32 {
         quiet.say(&format!("  [poll plans <= 3 Pendings, async Mem, {} large trees over U(2,3)] runs={}", big.len(), ps3.runs));
     }
     drop(quiet);
-    let mut xs = Stats { label: "async reader scripts + poll plans".into(), states: (trees.len() + small.len()) as u64, transitions: scripts + ps1.runs + ps2.runs + ps3.runs, fixpoint: true, ..Default::default() };
+    let mut xs = Stats { label: "async reader scripts + poll plans".into(), states: (trees.len() + small.len()) as u64, transitions: scripts + ps1.runs + ps2.runs + ps3.runs + vr1 + vr2 + vr3, fixpoint: true, ..Default::default() };
     for (k, v) in ps1.classes.iter().chain(ps2.classes.iter()).chain(ps3.classes.iter()) {
         *xs.counters.entry(k.clone()).or_insert(0) += v;
     }
